@@ -253,6 +253,59 @@ def main(n: int, m: int, b: bool):
 ''']
 
 
+NESTING_SRC = '''
+@tweezer
+def hop(g: grid.Grid[Any, Any], k: int):
+    action.set_loc(g)
+    action.move(grid.shift(g, 1.0 * k, 0.5))
+
+@move{opts}
+def main(n: int, m: int, b: bool):
+    d = schedule.device_fn(hop, [0, 1, 2], [0, 1])
+    z = spec.get_static_trap(zone_id="A")
+    d(z, 1)
+    d(z, 2)
+    d(z, 3)
+    d(z, 4)
+    d(z, 5)
+    d(z, 6)
+    gate.global_rz(0.5)
+    with schedule.parallel():
+        d(z, 1)
+        with schedule.parallel():
+            d(z, 2)
+            with schedule.parallel():
+                d(z, 3)
+                d(z, 4)
+            d(z, 5)
+        d(z, 6)
+    return n
+'''
+
+
+def nesting_stream(ctx):
+    """blocks of one kind nested three deep denote ONE group with the calls in source order: its members are the paths the same
+    calls play one by one (this needs no reference evaluator: the program carries its own expectation)"""
+    from . import c06 as C06
+    C06.SPEC_SLOT = SPEC
+    hdr = L.HDR + "from harness.props import c06 as _C06\n"
+    for opts, plain in (("", False), ("(fold=False)", False), ("(arch_spec=_C06.SPEC_SLOT)", True), ("(aggressive=True)", False)):
+        src = hdr + NESTING_SRC.replace("{opts}", opts)
+        ctx.count("nesting_runs")
+        try:
+            r = EV.run_with_events(T.load_source(src, "c04n").main, SPEC, (1, 0, True), plain=plain)
+        except Exception as e:  # noqa: BLE001
+            ctx.fail({"source": src[len(hdr):], "options": opts}, f"the nesting program does not compile: {type(e).__name__}: {str(e)[:160]}")
+            continue
+        singles = [canon_obj(e[1]) for e in r.events if e[0] == "play"]
+        groups = [[canon_obj(m) for m in e[2]] for e in r.events if e[0] == "play_group"]
+        if r.error is not None or len(singles) != 6 or len(groups) != 1 or groups[0] != singles:
+            ctx.fail({"source": src[len(hdr):], "options": opts},
+                     f"three nested parallel blocks do not play one group of the six calls in source order: error={r.error}, "
+                     f"{len(singles)} single plays, groups of sizes {[len(g) for g in groups]}, members in order: "
+                     f"{groups[0] == singles if groups else None}")
+
+
 def canon_obj(o):
     """route-independent text of an event operand (filled grids included)"""
     if isinstance(o, (list, tuple)):
@@ -478,6 +531,7 @@ def run(ctx):
                         k = "F15-inlined-early-return"
                     ctx.fail(dict(case, args=list(a)), f"fixed-source program (compared route against route): events on route [{route_name(route)}] differ from the "
                                                        f"unfolded run-time-spec route: got={got[:300]} want={want[:300]}", key=k)
+    nesting_stream(ctx)
     for key in list(progs)[:2]:
         p = progs[key]
         ctx.sample({"stream": p["stream"], "source": p["src"][len(L.HDR):][:900], "args": [list(a) for a in p["args"]],
